@@ -2,12 +2,16 @@
    Statements only: each theorem is closed by [exact], pinned by [Check] and followed by
    [Print Assumptions].
 
-   The model (Model/ExportTx.v) is the code after the two `fix:` commits of this property
+   The model (Model/ExportTx.v) is the code after the three `fix:` commits of this property
    (PendingTx keyed by (prefix, path id); initial dump / route refresh hand every candidate
-   to the add-path top-N).  The RIB is abstracted to its change stream; [truthful_run] is
-   the contract of that stream (flags say what changed), [Known_C01_llgr] and
-   [Known_C01_refresh_race] are the two open findings of known_findings.json.  MAXOK max is
-   addpath_tx = (effective_max > 1). *)
+   to the add-path top-N; restale_llgr reports the marked paths as replaced / the marked best
+   as changed).  The RIB is abstracted to its change stream; [truthful_run] is the contract
+   of that stream (flags say what changed, including the LLGR-stale marking of a source),
+   [pol_marks_after_accept] the contract of the policy abstraction (LLGR_STALE is added to an
+   accepted route), [Known_C01_refresh_race] the open finding of known_findings.json.
+   MAXOK max is addpath_tx = (effective_max > 1).  [pol] is indexed by the installed export
+   policy; the histories of the theorems keep policy 0 installed (a PolicyChange label is not
+   truthful): a policy change during a session is exercised by the correspondence only. *)
 From Coq Require Import List NArith Bool.
 From RB Require Import Base.Val Model.ExportTx Spec.ExportTxSpec Proofs.ExportTx.
 Import ListNotations.
@@ -17,35 +21,37 @@ Open Scope N_scope.
    holds after every admissible history (all label sequences, all payload types, send-max
    values, visibility filters and export policies). *)
 Theorem export_inv_preserved :
-  forall (E : Type) (max : N) (vis : path -> bool) (pol : bool -> N -> path -> option E)
+  forall (E : Type) (max : N) (vis : path -> bool) (pol : N -> bool -> N -> path -> option E)
          (ls : list label),
+    pol_marks_after_accept E (pol 0) ->
     ok_run E ByNet false max (MAXOK max) vis pol (state0 E) ls ->
-    Inv E max vis pol (run E ByNet false max (MAXOK max) vis pol ls).
+    Inv E max vis (pol 0) 0 (run E ByNet false max (MAXOK max) vis pol ls).
 Proof. exact C01_export_inv_preserved. Qed.
 Check export_inv_preserved :
-  forall (E : Type) (max : N) (vis : path -> bool) (pol : bool -> N -> path -> option E)
+  forall (E : Type) (max : N) (vis : path -> bool) (pol : N -> bool -> N -> path -> option E)
          (ls : list label),
+    pol_marks_after_accept E (pol 0) ->
     ok_run E ByNet false max (MAXOK max) vis pol (state0 E) ls ->
-    Inv E max vis pol (run E ByNet false max (MAXOK max) vis pol ls).
+    Inv E max vis (pol 0) 0 (run E ByNet false max (MAXOK max) vis pol ls).
 Print Assumptions export_inv_preserved.
 
 (* (T2) Established, nothing queued, nothing pending: the neighbour's Adj-RIB-In is
    exactly what a brand-new session would be sent now. *)
 Theorem quiescent_view_eq_fresh_outside_known :
-  forall (E : Type) (max : N) (vis : path -> bool) (pol : bool -> N -> path -> option E)
+  forall (E : Type) (max : N) (vis : path -> bool) (pol : N -> bool -> N -> path -> option E)
          (ls : list label),
+    pol_marks_after_accept E (pol 0) ->
     truthful_run E ByNet false max (MAXOK max) vis pol (state0 E) ls ->
-    ~ Known_C01_llgr ls ->
     ~ Known_C01_refresh_race E ByNet false max (MAXOK max) vis pol (state0 E) ls ->
     let s := run E ByNet false max (MAXOK max) vis pol ls in
     established E s -> quiescent E s ->
     same_routes E (view E s) (fresh E ByNet false max (MAXOK max) vis pol s).
 Proof. exact C01_quiescent_view_eq_fresh_outside_known. Qed.
 Check quiescent_view_eq_fresh_outside_known :
-  forall (E : Type) (max : N) (vis : path -> bool) (pol : bool -> N -> path -> option E)
+  forall (E : Type) (max : N) (vis : path -> bool) (pol : N -> bool -> N -> path -> option E)
          (ls : list label),
+    pol_marks_after_accept E (pol 0) ->
     truthful_run E ByNet false max (MAXOK max) vis pol (state0 E) ls ->
-    ~ Known_C01_llgr ls ->
     ~ Known_C01_refresh_race E ByNet false max (MAXOK max) vis pol (state0 E) ls ->
     let s := run E ByNet false max (MAXOK max) vis pol ls in
     established E s -> quiescent E s ->
@@ -56,10 +62,10 @@ Print Assumptions quiescent_view_eq_fresh_outside_known.
    session would not be sent has its withdrawal waiting for the socket, or a change of its
    prefix is still queued. *)
 Theorem no_lost_withdrawal_outside_known :
-  forall (E : Type) (max : N) (vis : path -> bool) (pol : bool -> N -> path -> option E)
+  forall (E : Type) (max : N) (vis : path -> bool) (pol : N -> bool -> N -> path -> option E)
          (ls : list label),
+    pol_marks_after_accept E (pol 0) ->
     truthful_run E ByNet false max (MAXOK max) vis pol (state0 E) ls ->
-    ~ Known_C01_llgr ls ->
     ~ Known_C01_refresh_race E ByNet false max (MAXOK max) vis pol (state0 E) ls ->
     let s := run E ByNet false max (MAXOK max) vis pol ls in
     established E s ->
@@ -68,10 +74,10 @@ Theorem no_lost_withdrawal_outside_known :
                 withdrawal_pending E s k \/ change_undelivered E s k.
 Proof. exact C01_no_lost_withdrawal_outside_known. Qed.
 Check no_lost_withdrawal_outside_known :
-  forall (E : Type) (max : N) (vis : path -> bool) (pol : bool -> N -> path -> option E)
+  forall (E : Type) (max : N) (vis : path -> bool) (pol : N -> bool -> N -> path -> option E)
          (ls : list label),
+    pol_marks_after_accept E (pol 0) ->
     truthful_run E ByNet false max (MAXOK max) vis pol (state0 E) ls ->
-    ~ Known_C01_llgr ls ->
     ~ Known_C01_refresh_race E ByNet false max (MAXOK max) vis pol (state0 E) ls ->
     let s := run E ByNet false max (MAXOK max) vis pol ls in
     established E s ->
@@ -83,26 +89,28 @@ Print Assumptions no_lost_withdrawal_outside_known.
 (* (T4) What `Register` dumps is the closed form of the export rules: the best path only /
    the first send-max visible candidates, each through the export policy. *)
 Theorem fresh_is_export_rules :
-  forall (E : Type) (max : N) (vis : path -> bool) (pol : bool -> N -> path -> option E)
+  forall (E : Type) (max : N) (vis : path -> bool) (pol : N -> bool -> N -> path -> option E)
          (ls : list label),
+    pol_marks_after_accept E (pol 0) ->
     ok_run E ByNet false max (MAXOK max) vis pol (state0 E) ls ->
     let s := run E ByNet false max (MAXOK max) vis pol ls in
     forall k, kfind k (fresh E ByNet false max (MAXOK max) vis pol s)
-              = fresh_at E max vis pol (s_rib s) k.
+              = fresh_at E max vis (pol 0) (live (s_llgr s)) (s_rib s) k.
 Proof. exact C01_fresh_is_export_rules. Qed.
 Check fresh_is_export_rules :
-  forall (E : Type) (max : N) (vis : path -> bool) (pol : bool -> N -> path -> option E)
+  forall (E : Type) (max : N) (vis : path -> bool) (pol : N -> bool -> N -> path -> option E)
          (ls : list label),
+    pol_marks_after_accept E (pol 0) ->
     ok_run E ByNet false max (MAXOK max) vis pol (state0 E) ls ->
     let s := run E ByNet false max (MAXOK max) vis pol ls in
     forall k, kfind k (fresh E ByNet false max (MAXOK max) vis pol s)
-              = fresh_at E max vis pol (s_rib s) k.
+              = fresh_at E max vis (pol 0) (live (s_llgr s)) (s_rib s) k.
 Print Assumptions fresh_is_export_rules.
 
 (* ---- refutations.  The full-strength statements are false of the code before the fixes
    and, for two input classes, of the code after them. *)
 
-(* code before fix 84b466b (PendingTx keyed by dest_id): a withdrawal is lost *)
+(* code before fix ee21a37 (PendingTx keyed by dest_id): a withdrawal is lost *)
 Theorem no_lost_withdrawal_refuted_by_id_keying :
   let g := G ById false 1 [] in
   let s := crun g w_idreuse in
@@ -118,39 +126,40 @@ Check no_lost_withdrawal_refuted_by_id_keying :
               ~ withdrawal_pending CE s k /\ ~ change_undelivered CE s k.
 Print Assumptions no_lost_withdrawal_refuted_by_id_keying.
 
-(* code before fix b76cfd5 (dump truncated before the visibility filters) *)
+(* code before fix fcdcf73 (dump truncated before the visibility filters) *)
 Theorem quiescent_view_eq_fresh_refuted_truncated_dump :
   let g := G ByNet true 2 [0] in
   let s := crun g w_limited in
-  established CE s /\ quiescent CE s /\ ~ Known_C01_llgr w_limited /\
+  established CE s /\ quiescent CE s /\
   exists k, kfind k (view CE s) <> kfind k (cfresh g s).
 Proof. exact C01_quiescent_view_eq_fresh_refuted_truncated_dump. Qed.
 Check quiescent_view_eq_fresh_refuted_truncated_dump :
   let g := G ByNet true 2 [0] in
   let s := crun g w_limited in
-  established CE s /\ quiescent CE s /\ ~ Known_C01_llgr w_limited /\
+  established CE s /\ quiescent CE s /\
   exists k, kfind k (view CE s) <> kfind k (cfresh g s).
 Print Assumptions quiescent_view_eq_fresh_refuted_truncated_dump.
 
-(* open finding C01-llgr-stale-not-resent (current code) *)
-Theorem quiescent_view_eq_fresh_refuted_llgr :
+(* the RIB before fix d9feca9 (restale_llgr reported an unmoved best path as unchanged and
+   no replaced path): an untruthful change stream, the view does not converge *)
+Theorem quiescent_view_eq_fresh_refuted_unreported_llgr :
   let g := G ByNet false 1 [] in
-  let s := crun g w_llgr in
-  Known_C01_llgr w_llgr /\ established CE s /\ quiescent CE s /\
+  let s := crun g w_llgr_old in
+  established CE s /\ quiescent CE s /\
   exists k, kfind k (view CE s) <> kfind k (cfresh g s).
-Proof. exact C01_quiescent_view_eq_fresh_refuted_llgr. Qed.
-Check quiescent_view_eq_fresh_refuted_llgr :
+Proof. exact C01_quiescent_view_eq_fresh_refuted_unreported_llgr. Qed.
+Check quiescent_view_eq_fresh_refuted_unreported_llgr :
   let g := G ByNet false 1 [] in
-  let s := crun g w_llgr in
-  Known_C01_llgr w_llgr /\ established CE s /\ quiescent CE s /\
+  let s := crun g w_llgr_old in
+  established CE s /\ quiescent CE s /\
   exists k, kfind k (view CE s) <> kfind k (cfresh g s).
-Print Assumptions quiescent_view_eq_fresh_refuted_llgr.
+Print Assumptions quiescent_view_eq_fresh_refuted_unreported_llgr.
 
 (* open finding C01-refresh-race (current code) *)
 Theorem no_lost_withdrawal_refuted_refresh_race :
   let g := G ByNet false 2 [1] in
   let s := crun g w_race in
-  Known_C01_refresh_race CE ByNet false 2 true (cvis g) (cpol g) (state0 CE) w_race /\
+  Known_C01_refresh_race CE ByNet false 2 true (cvis g) (cpolv g) (state0 CE) w_race /\
   established CE s /\ quiescent CE s /\
   exists k e, kfind k (view CE s) = Some e /\ kfind k (cfresh g s) = None /\
               ~ withdrawal_pending CE s k /\ ~ change_undelivered CE s k.
@@ -158,7 +167,7 @@ Proof. exact C01_no_lost_withdrawal_refuted_refresh_race. Qed.
 Check no_lost_withdrawal_refuted_refresh_race :
   let g := G ByNet false 2 [1] in
   let s := crun g w_race in
-  Known_C01_refresh_race CE ByNet false 2 true (cvis g) (cpol g) (state0 CE) w_race /\
+  Known_C01_refresh_race CE ByNet false 2 true (cvis g) (cpolv g) (state0 CE) w_race /\
   established CE s /\ quiescent CE s /\
   exists k e, kfind k (view CE s) = Some e /\ kfind k (cfresh g s) = None /\
               ~ withdrawal_pending CE s k /\ ~ change_undelivered CE s k.
